@@ -39,7 +39,19 @@ def parse_final(tokens):
     d["tree"] = unhexs(t[i + 7])
     k = int(t[i + 9])
     d["out"] = [int(x) for x in t[i + 10:i + 10 + k]]
+    j = i + 10 + k
+    if len(t) > j and t[j] == "rech":
+        kk = int(t[j + 1])
+        d["rech"] = t[j + 2:j + 2 + kk]
+        d["reci"] = t[j + 3 + kk] == "1"
     return d
+
+
+def fnv(text):
+    h = 0xcbf29ce484222325
+    for b in text.encode("utf-8", "replace"):
+        h = ((h ^ b) * 0x100000001b3) & 0xFFFFFFFFFFFFFFFF
+    return "%016x" % h
 
 
 def parse_impl_run(payload):
